@@ -6,6 +6,7 @@ import json
 
 import common
 import gen
+import pyreadlib
 
 N = {"quick": 150, "thorough": 4000}
 LEAN_MODULE = "Pyab.Properties.C13_full"
@@ -118,6 +119,22 @@ def expected_strings(prog):
     return out
 
 
+def function_body(code):
+    """the body text of choose_experiment_variant in the nested layout (lines indented by at least two tabs)"""
+    lines = code.split("\n")
+    try:
+        i = next(k for k, l in enumerate(lines) if l.startswith("\tdef choose_experiment_variant("))
+    except StopIteration:
+        return None
+    out = []
+    for l in lines[i + 1:]:
+        if l.startswith("\t\t") or l.strip("\t") == "":
+            out.append(l)
+        else:
+            break
+    return "\n".join(out)
+
+
 def run_batch(ctx, n, with_model=True):
     from pyab_experiment.utils.wraper_functions import parse_source, generate_code
     from pyab_experiment.codegen.python.python_generator import PythonCodeGen
@@ -128,6 +145,7 @@ def run_batch(ctx, n, with_model=True):
     real_print = builtins.print
     printed = []
     builtins.print = lambda *a, **k: printed.append(a)
+    reader_jobs = []
     try:
         plan = []
         for _ in range(n):
@@ -186,6 +204,10 @@ def run_batch(ctx, n, with_model=True):
                         ctx.tie_break("model-text-unparsable", {"text": text})
                     if m["gen"] != code:
                         ctx.drift("gen", {"text": text})
+                # the model of Python's READER against CPython's own reading of the real generator's body text
+                body = function_body(code)
+                if body is not None:
+                    reader_jobs.append((text, body))
                 # compile and evaluate with the sentinel planted
                 before = sentinel.calls, len(printed)
                 try:
@@ -202,6 +224,26 @@ def run_batch(ctx, n, with_model=True):
                 if sk is not None and base is not None and sk != base:
                     ctx.violation(f"substituting string literals changes the structure of the generated program: {gen.render(v)[:200]!r}",
                                   {"base": gen.render(variants[0]), "variant": gen.render(v)})
+        # reader tie (batched)
+        if with_model and ctx.driver_ok and reader_jobs:
+            try:
+                answers = common.run_driver_parallel([{"op": "pyread", "text": b} for _, b in reader_jobs], jobs=12)
+            except Exception as ex:  # noqa
+                answers = []
+                ctx.obligation_breaks.append({"what": "model-driver-run", "detail": repr(ex)[:400]})
+            for (text, body), ans in zip(reader_jobs, answers):
+                want = pyreadlib.py_lines(body)
+                ctx.count("reader-tie")
+                got = ans.get("lines")
+                if want is None:
+                    ctx.count("reader-tie:cpython-rejects-shape")
+                    continue
+                if got is None:
+                    # floats such as inf / shapes outside the reader: the model does not vouch for this text
+                    ctx.count("reader-tie:model-declines")
+                    continue
+                if got != want:
+                    ctx.tie_break("python-reader", {"text": text, "body": body[:400], "model": json.dumps(got)[:300], "cpython": json.dumps(want)[:300]})
     finally:
         builtins.print = real_print
         del builtins.PWNED
